@@ -86,7 +86,24 @@ fn universe(cons: &Consensus) -> BTreeMap<&'static str, TransactionView> {
     m
 }
 
+type Sink = std::sync::Arc<std::sync::Mutex<Vec<(String, BlockTemplate)>>>;
+
+/// At the gates between the phases of a tip change (blank template for the new tip / pool updated /
+/// template refilled) a template is requested, exactly as a miner polling at that moment would.
+fn install_gate(drv: &Driver, sink: &Sink) {
+    let shared = drv.node.shared.clone();
+    let sink = std::sync::Arc::clone(sink);
+    ckb_tx_pool::verif::set_gate(Some(Box::new(move |point| {
+        if point.starts_with("reorg:") {
+            if let Ok(Ok(tpl)) = shared.get_block_template(None, None, None) {
+                sink.lock().unwrap().push((point.to_string(), tpl));
+            }
+        }
+    })));
+}
+
 struct Runner {
+    sink: Sink,
     limit: Limit,
     cons: Consensus,
     txs: BTreeMap<&'static str, TransactionView>,
@@ -108,7 +125,9 @@ impl Runner {
         let twin = Forge::new(&ctx.scratch.join(format!("c13-twin-{limit:?}")), &cons)?;
         let drv = Driver::boot_with(&ctx.scratch.join(format!("c13-pool-{limit:?}-0")), &cons, pool_config(), true)?;
         let txs = universe(&cons);
-        Ok(Runner { limit, cons, txs, drv, twin, nonce: 1, boots: 0 })
+        let sink: Sink = Default::default();
+        install_gate(&drv, &sink);
+        Ok(Runner { sink, limit, cons, txs, drv, twin, nonce: 1, boots: 0 })
     }
 
     fn name_of(&self, id: &ProposalShortId) -> String {
@@ -123,6 +142,7 @@ impl Runner {
             let old = std::mem::replace(&mut self.drv, fresh);
             old.node.shutdown();
             self.drv.clock = clock;
+            install_gate(&self.drv, &self.sink);
         }
         self.drv.reset()?;
         self.twin.forget();
@@ -270,7 +290,20 @@ impl Runner {
             report.transitions += 1;
             if step < check_from {
                 self.drv.node.wait_pool_synced()?;
+                self.sink.lock().unwrap().clear();
                 continue;
+            }
+            // templates a miner would have got between the phases of the tip change this operation caused
+            self.drv.node.wait_pool_synced()?;
+            let at_gates: Vec<(String, BlockTemplate)> = self.sink.lock().unwrap().drain(..).collect();
+            for (point, tpl) in at_gates {
+                let p: Byte32 = tpl.parent_hash.clone().into();
+                if self.twin.known.contains_key(&p) {
+                    report.count(&format!("templates_at_gate {point}"), 1);
+                    let mut t2 = trace.clone();
+                    t2.push(format!("[template requested at {point}]"));
+                    self.check_template(tpl, true, &t2, &label, report)?;
+                }
             }
             // a template requested right away (may still name the previous tip: it must be valid there)
             let now_tip = self.drv.node.tip().hash();
@@ -390,7 +423,7 @@ pub fn meta(tier: Tier) -> Meta {
         id: "C13",
         level: "model_checking",
         rule: "state = operation history over {Submit(t) for 9 designed transactions (chain of three, a join, a dep user and the dep cell's spender, two independent ones, a conflicting replacement), Mine (seal and process the node's own template), Uncle (a forged sibling of the tip arrives), Reorg (two forged blocks on the tip's parent detach the tip), Foreign (a forged block on the tip proposes three of the transactions before they are submitted)} replayed on a real node with tx-pool and block assembler, in a family of worlds: block byte limits on and around the packing boundaries of the universe (three transactions with 0..3 proposals, with an uncle), block cycle limits on and around 2, 3, 4 transactions, and no tight limit (proposal limit 3 in all; 4-block epochs; proposal window 2..4); BFS from seven seed histories (empty; ids proposed by a foreign block before the transactions arrive; four proposed txs; chain + join proposed; one block before the epoch boundary; a fresh tip with three proposed and several unproposed pending txs, without and with an uncle candidate), dedup on (pool entries with stage and links, chain content, siblings delivered). After EVERY operation: the template returned immediately (if it still names the previous tip it is checked on that parent) and the template naming the current tip are sealed (dummy PoW, fresh nonce) and processed by a twin node (chain only) positioned on the named parent: must be accepted; and against the pool dump: every template tx has all its pooled parents earlier in the template, no cell is spent twice, proposals within the limit. non-trivial = state with a proposed tx or an uncle candidate.",
-        assumptions: &["the moment of the template request relative to the assembler's internal message processing is whatever the real threads produce (two requests per operation); it is not enumerated by a scheduler", "notify scripts / HTTP notification of templates are outside"],
+        assumptions: &["template requests are made right after each operation, at quiescence, and at the two gates between the phases of every tip change (blank template / pool updated / template refilled); other moments relative to the assembler's message processing are whatever the real threads produce", "notify scripts / HTTP notification of templates are outside"],
         bounds: json!({"worlds_and_depth_from_seed": worlds(tier).iter().map(|(l, d)| format!("{l:?}:{d}")).collect::<Vec<_>>(), "seeds": seeds().len()}),
     }
 }
